@@ -1,6 +1,6 @@
 (* C02 Parsing recovers exactly the components of any legal spelling *)
 Load "coq/props/Hdr".
-From PM Require Import C02.
+From PM Require Import C02 Quals Exec CsRef.
 Lemma src_cfg_ok : cfg_ok cfg. Proof. sc. Qed.
 (* right-to-left splitting at '#', '?', '@' is what the property's statement fixes *)
 Lemma src_dirs : dir_sub cfg = true /\ dir_qual cfg = true /\ dir_ver cfg = true. Proof. vm_compute. auto. Qed.
@@ -24,3 +24,9 @@ Print Assumptions C02_same_typed.
 Theorem C02_only_skeletons : forall s x, parse cfg G s = Ok x -> exists r, WFr cfg r /\ s = asm r /\ checks cfg G r = Ok x.
 Proof. intros s x. apply parse_sound. Qed.
 Print Assumptions C02_only_skeletons.
+(* the checksum value may be spelled with its entries in any order and its hex digits in any case: the built PURL is the same *)
+Theorem C02_checksum_spelling_freedom : forall t p v1 v2 m1 m2, QInv cfg (p_quals p) -> q_get cfg (p_quals p) s_checksum = Some v1 -> v1 <> [] -> v2 <> [] ->
+  cs_try_from cfg v1 = Ok m1 -> cs_try_from cfg v2 = Ok m2 -> NoDup (map fst m1) -> Permutation.Permutation (map norm m1) (map norm m2) ->
+  build cfg G t (with_quals p (q_set cfg (p_quals p) s_checksum v2)) = build cfg G t p.
+Proof. apply build_checksum_spelling; sc. Qed.
+Print Assumptions C02_checksum_spelling_freedom.
